@@ -250,8 +250,11 @@ func runC19(c *core.Ctx) {
 		want := core.Run(def, src, b)
 		e := liquid.NewEngine()
 		if entries%3 == 0 {
-			// an earlier configuration of the same engine must not matter: Delims sets all four delimiters
+			// an earlier configuration of the same engine must not matter: Delims sets all four delimiters - also for a
+			// source that the engine has parsed and rendered under the earlier configuration
 			e.Delims("[[", "]]", "[%", "%]")
+			core.Run(e, rs, gen.CanonEnv(env))
+			core.ParseAndRenderString(e, rs, gen.CanonEnv(env))
 		}
 		e.Delims(engQ[0], engQ[1], engQ[2], engQ[3])
 		if strings.Contains(src, "c19part.html") {
